@@ -25,7 +25,7 @@ def run(rep, tier, seed, model_ok=True, effort=1):
     from bumpver import version, v2patterns
     from bumpver import setuptools_v65_version as sv
     r = common.rng(seed, "c15")
-    n = (800 if tier == "quick" else 15000) * effort
+    n = (800 if tier == "quick" else 60000) * effort
     rep.rule = ("version patterns (prefix ''/'v') x (dot separated numeric/calendar parts) x every tag group shape x all tags x NUM values x states: "
                 "text written for {version} and for {pep440_version}; when the former is a valid PEP 440 version the latter must be a valid PEP 440 "
                 "version with an equal key, be accepted by the derived pattern, carry no 'v', no zero-padded component after the first, short tag + number, "
